@@ -316,7 +316,9 @@ pub fn c10(ctx: &mut Ctx) {
         let mk = |ctx: &Ctx, what: &str| {
             replay_envelope("C10", scenario, &ctx.variant, json!({"call": "queries", "digest": image::felt_hex(&digest), "counter": counter, "n": n, "log_domain": log_d, "oracle": what}))
         };
-        let run = monitor::guarded_val(10_000_000, || {
+        // drawing n <= 56 queries costs n challenges: anything beyond a small multiple is a loop
+        // whose bound does not come from n
+        let run = monitor::guarded_val(4 * (n + 8), || {
             let mut t = Transcript::new_with_counter(digest, Felt::from(counter));
             let q = swiftness_stark::queries::generate_queries(&mut t, Felt::from(n), size);
             let q2 = swiftness_stark::queries::generate_queries(&mut t, Felt::from(n.min(4)), size);
@@ -327,6 +329,7 @@ pub fn c10(ctx: &mut Ctx) {
             ctx.violation(&format!("C10|crash|{}", run.outcome.class()), &format!("generate_queries(n={n}, domain 2^{log_d}): {}", run.outcome.describe()), mk(ctx, "crash"));
             continue;
         }
+        verif::reset_ticks(u64::MAX);
         let mut t = Transcript::new_with_counter(digest, Felt::from(counter));
         let q = swiftness_stark::queries::generate_queries(&mut t, Felt::from(n), size);
         let q2 = swiftness_stark::queries::generate_queries(&mut t, Felt::from(n.min(4)), size);
@@ -678,7 +681,7 @@ pub fn replay(rep: &Value) -> Result<(bool, String), String> {
             let counter = rep["counter"].as_u64().ok_or("counter")?;
             let n = rep["n"].as_u64().ok_or("n")?;
             let log_d = rep["log_domain"].as_u64().ok_or("log_domain")? as u32;
-            let r = monitor::guarded_val(10_000_000, || {
+            let r = monitor::guarded_val(4 * (n + 8), || {
                 let mut t = Transcript::new_with_counter(digest, Felt::from(counter));
                 let q = swiftness_stark::queries::generate_queries(&mut t, Felt::from(n), models::pow2(log_d as u64));
                 (q, *t.counter())
